@@ -290,12 +290,16 @@ func checkC05(c *Ctx, r *Report) {
 				return cc != nil && cc.IsInvoke() && cc.Value == ssa.Value(w) && (cc.Method.Name() == "WriteHeader" || cc.Method.Name() == "Write")
 			}
 			bad := ""
-			for _, ret := range returnsOf(f) {
-				ev := retResult(ret, len(ret.Results)-1)
+			for _, vr := range virtualReturns(f, res.Len()-1) {
+				ev, ret := vr.Val, vr.Ret
 				if isNilConst(ev) {
 					continue
 				}
-				if !reachAvoiding(in, ret, started) {
+				// the path that carries this value: up to the block it comes out of, then on to the return
+				if !reachAvoiding(in, vr.At, started) && in != vr.At {
+					continue
+				}
+				if vr.At != ssa.Instruction(ret) && !reachAvoiding(vr.At, ret, started) {
 					continue
 				}
 				if errFromMarshalOnly(ev, 4) {
